@@ -347,8 +347,9 @@ func (c *Client) Register(topic string) error {
 	transaction := newRegisterTransaction(c, msgID, topic)
 	register := pkts1.NewRegister(0, topic)
 	register.SetMessageID(msgID)
-	c.transactions.Store(msgID, transaction)
+	// The transaction must hold its packet before the receive loop can find it.
 	transaction.Proceed(nil, register)
+	c.transactions.Store(msgID, transaction)
 	if err := c.send(register); err != nil {
 		transaction.Fail(err)
 	}
@@ -365,8 +366,9 @@ func (c *Client) subscribe(topicName string, topicIDType uint8, topicID uint16, 
 	transaction := newSubscribeTransaction(c, msgID, callback)
 	subscribe := pkts1.NewSubscribe(topicName, topicID, false, qos, topicIDType)
 	subscribe.SetMessageID(msgID)
-	c.transactions.Store(msgID, transaction)
+	// The transaction must hold its packet before the receive loop can find it.
 	transaction.Proceed(nil, subscribe)
+	c.transactions.Store(msgID, transaction)
 	if err := c.send(subscribe); err != nil {
 		transaction.Fail(err)
 	}
@@ -400,8 +402,9 @@ func (c *Client) unsubscribe(topicName string, topicIDType uint8, topicID uint16
 	transaction := newUnsubscribeTransaction(c, msgID)
 	unsubscribe := pkts1.NewUnsubscribe(topicName, topicID, topicIDType)
 	unsubscribe.SetMessageID(msgID)
-	c.transactions.Store(msgID, transaction)
+	// The transaction must hold its packet before the receive loop can find it.
 	transaction.Proceed(nil, unsubscribe)
+	c.transactions.Store(msgID, transaction)
 	if err := c.send(unsubscribe); err != nil {
 		transaction.Fail(err)
 	}
